@@ -251,7 +251,19 @@ class CompoundQuery(qcore.Query):
             m = make_binary_tree(mcls, subms, **kwargs)
         else:
             w_subms = [(q_weight_fn(q), m) for q, m in zip(subs, subms)]
-            m = make_weighted_tree(mcls, w_subms, **kwargs)
+            if len(w_subms) > 64:
+                # A weighted tree can degenerate into a chain as deep as the
+                # list is long (it always does for the negative weights of
+                # And), and the recursive matcher methods cannot follow a
+                # chain beyond the interpreter's recursion limit (an And of
+                # a thousand words raised RecursionError): with this many
+                # clauses use a balanced tree over them, in weight order
+                order = sorted(range(len(w_subms)),
+                               key=lambda i: w_subms[i][0])
+                m = make_binary_tree(mcls, [w_subms[i][1] for i in order],
+                                     **kwargs)
+            else:
+                m = make_weighted_tree(mcls, w_subms, **kwargs)
 
         # If this query had a boost, add a wrapping matcher to apply the boost
         if self.boost != 1.0:
